@@ -1,8 +1,9 @@
 """C39 -- concurrent shard operations stay race-free, deadlock-free, panic-free and serializable.
 Spec: TraceTSMEngine.tla (trace validation over the contract layer of TSMEngine.tla: `model`, the last-write-wins map updated by
 writes -- one step per series key -- and range deletes -- one step per point --; a read takes ONE step and must return exactly
-ReadFrom(model, key, lo, hi, asc) of that moment; Close excludes half-applied writes/deletes and makes later operations fail; after
-the trace the shard is reopened and every series must read exactly `model`).
+ReadFrom(model, key, lo, hi, asc) of that moment; Close excludes half-applied writes and makes later operations fail; a range delete
+that Close overtakes (the Shard delete methods do not exclude Close) goes on or fails, and having failed -- never acknowledged -- it may
+have deleted any part of its range; after the trace the shard is reopened and every series must read exactly `model`).
 Binding: code -> spec.  `engine record` runs 3-6 goroutines of random writes, cursor reads, range deletes, WriteSnapshot,
 ScheduleFullCompaction, Backup and Close (after or concurrently with the last operations) on a real tsdb.Shard whose engine runs its
 REAL planner and background compaction loops (compactions committed inside the traces are counted: vacuity guard), logging call/ret
@@ -135,6 +136,11 @@ def validate_all(ctx, traces, tag, stats):
             stats['operations'] += len(calls)
             for c in calls:
                 stats['ops'][c['op']] = stats['ops'].get(c['op'], 0) + 1
+            # observation (not a verdict): range deletes that Shard.Close overtook and that returned an error after (part of) their work
+            over = sum(1 for x in traces[j] if '"op":"delete"' in x and '"ok":false' in x and 'engine is closed' not in x)
+            if over:
+                stats['deletes_overtaken_by_close'] = stats.get('deletes_overtaken_by_close', 0) + over
+                ctx.drift['delete_overtaken_by_close_failed_midway'] = ctx.drift.get('delete_overtaken_by_close_failed_midway', 0) + over
             fin = [json.loads(x) for x in traces[j] if '"ev":"final"' in x]
             commits = fin[0].get('commits', 0) if fin else 0
             stats['background_compaction_commits'] += commits
